@@ -8,7 +8,11 @@
 
 namespace engine
 {
+#if defined(CHESSPLUSPLUS_VERIF) && defined(CHESSPLUSPLUS_VERIF_PAWN_SIZE)
+using PawnHashMap = HashMap<uint64_t, Score, CHESSPLUSPLUS_VERIF_PAWN_SIZE>;
+#else
 using PawnHashMap = HashMap<uint64_t, Score, 512 * 512>;
+#endif
 
 class PositionScorer
 {
